@@ -996,6 +996,29 @@ func (g *JSGen) Stmt(depth int) string {
 			return fmt.Sprintf("var %s = 0;\ndo %s while (%s++ < %d && (%s));\n", c, strings.TrimSuffix(body, "\n"), c, 1+r.Intn(2), cond)
 		}
 	case 8:
+		if g.F.ForInOf && g.F.ObjectRest && r.Chance(1, 4) {
+			// a loop head that is an ASSIGNMENT pattern (no declaration) with an object rest element in
+			// different positions: plain, under an array-element default, nested in a property value
+			g.stat("for-of-assign-pattern-rest")
+			a, b := g.fresh(), g.fresh()
+			g.declare(jsVar{name: a, mutable: true})
+			g.declare(jsVar{name: b, mutable: true})
+			head, src := "", ""
+			switch r.Intn(5) {
+			case 0:
+				head, src = "{x: "+a+", ..."+b+"}", "[{x: 1, y: 2}, {z: 3}]"
+			case 1:
+				head, src = "[{x: "+a+", ..."+b+"} = {x: 7, w: 8}]", "[[{x: 1, y: 2}], []]"
+			case 2:
+				head, src = "{k: [{..."+b+"} = {d: 0}], x: "+a+"}", "[{k: [{y: 2}], x: 1}, {k: [], x: 2}]"
+			case 3:
+				head, src = "["+a+" = 5, {..."+b+"}]", "[[undefined, {q: 1}], [6, {r: 2, s: 3}]]"
+			default:
+				head, src = "[..."+a+"]", "[[1, 2], []]"
+				b = a
+			}
+			return "var " + a + ", " + b + ";\nfor (" + head + " of " + src + ") {\n" + g.probe(a) + ";\n" + g.probe(b) + ";\n}\n"
+		}
 		if g.F.ForInOf {
 			g.stat("for-in-of")
 			n := g.fresh()
@@ -1065,6 +1088,28 @@ func (g *JSGen) Stmt(depth int) string {
 			return s
 		}
 	case 11, 12:
+		if g.F.Async && g.F.Classes && r.Chance(1, 12) {
+			// an async function whose parameter DEFAULT throws while it is evaluated (a class expression with a
+			// throwing computed key / static field / static block / extends clause, or a throwing call): the call
+			// must return a rejected promise, never throw synchronously. Nothing is awaited, so no microtask
+			// timing is observed.
+			g.stat("async-param-default-throws")
+			thrower := "(() => { throw new TypeError(\"bad\"); })()"
+			dflt := pick(r,
+				"class { ["+thrower+"]() {} }",
+				"class { static f = "+thrower+"; }",
+				"class { static { "+thrower+"; } }",
+				"class extends "+thrower+" {}",
+				thrower,
+				"class { [\"k\"]() {} }")
+			form := pick(r,
+				"(async function (x = "+dflt+") { return 1; })()",
+				"(async (x = "+dflt+") => 1)()",
+				"({ async m(x = "+dflt+") { return 1; } }).m()",
+				"(async function (y, x = "+dflt+") { return y; })(2)")
+			t := g.tag()
+			return fmt.Sprintf("try { %s.catch(() => {}); p(%d, \"returned a promise\"); } catch (e) { p(%d, \"threw synchronously\", e); }\n", form, t, t)
+		}
 		// function declaration (hoisted in its scope: only called after this point)
 		n := g.fresh()
 		ar := r.Intn(3)
